@@ -45,7 +45,7 @@ KINDS = ['chi2', 'gaussian', 'normal-alias', 'truncated', 'obs-chi2-supplied', '
 DFDT = [('integer', 1.0), ('rounds-down', 1.4), ('tie', 1.5), ('rounds-up', 1.7), ('tie', 2.5), ('rounds-up', 2.6),
         ('rounds-down', 10.3), ('tie', 10.5), ('rounds-up', 10.7), ('integer', 51.0), ('ugly', None), ('ugly', None),
         ('rounds-down', 1.25), ('rounds-up', 3.75)]
-HIST = ['N', 'NN', 'NSN', 'SN', 'NZN', 'NSNZSNSN', 'NNSNN', 'ZNSN']
+HIST = ['N', 'NN', 'NSN', 'SN', 'NZN', 'NSNZSNSN', 'NNSNN', 'ZNSN', 'NNZN', 'NNZNN']
 PRIOR = ['empty', 'empty', 'empty', 'zeros-data', 'nonzero-data']
 SHAPES_Q = [(16, 256), (32, 128), (64, 64), (1, 4096), (3, 1500), (7, 600), (16, 1024), (32, 1024), (64, 256), (128, 128),
             (100, 300), (16, 512), (256, 256), (512, 512)]
@@ -586,6 +586,8 @@ def run_frame(c, R):
     tested = False
     n_noise = 0
     prev = None
+    sig_scales = {}
+    kept = []
     for q, op in enumerate(c['ops']):
         if op['op'] == 'zero':
             R.bucket('zero-data')
@@ -598,6 +600,7 @@ def run_frame(c, R):
         elif op['op'] == 'signal':
             st = fr.get_noise_stats()
             scale = float(st[1]) if float(st[1]) > 0 else c['base']
+            sig_scales[q] = scale
             f0 = float(fr.fs[int(op['pos'] * (c['fchans'] - 1))])
             fr.add_signal(stg.constant_path(f_start=f0, drift_rate=op['drift'] * fr.df / fr.dt / max(1, c['tchans']) * 8),
                           stg.constant_t_profile(level=op['level'] * scale),
@@ -621,6 +624,7 @@ def run_frame(c, R):
             R.check(np.array_equal(fr.data, before + ret), 'data-delta-differs-from-returned-noise:' + api,
                     nbad=int(np.sum(fr.data != before + ret)))
             R.check(not np.shares_memory(ret, fr.data), 'returned-noise-aliases-frame-data:' + api)
+            kept.append((api, ret, ret.copy()))
             stats = fr.get_noise_stats()
             if model.pristine:
                 R.bucket('first-noise-on-empty')
@@ -659,6 +663,30 @@ def run_frame(c, R):
             model.noise_since_reset = True
         prev = op['op']
         snr_probe(fr, c, R, model, rng)
+    # every array that was returned is the caller's from then on: a later call (same shape, same frame or not) must not reach it
+    for j, (api, arr, cp) in enumerate(kept):
+        R.check(np.array_equal(arr, cp), 'returned-noise-array-changed-by-a-later-call:' + api, call=j, calls=len(kept))
+    # reading the estimates is an observation, not an operation: the same history on an identical frame WITHOUT any look at the
+    # estimates in between ends in the same data and the same estimates
+    if len(c['ops']) >= 2:
+        R.bucket('blind-replay')
+        fb, _ = make_frame(stg, c, rn)
+        for q, op in enumerate(c['ops']):
+            if op['op'] == 'zero':
+                fb.zero_data()
+            elif op['op'] == 'signal':
+                f0 = float(fb.fs[int(op['pos'] * (c['fchans'] - 1))])
+                fb.add_signal(stg.constant_path(f_start=f0, drift_rate=op['drift'] * fb.df / fb.dt / max(1, c['tchans']) * 8),
+                              stg.constant_t_profile(level=op['level'] * sig_scales[q]),
+                              stg.gaussian_f_profile(width=op['width'] * fb.df), stg.constant_bp_profile(level=1))
+            else:
+                call_noise(fb, op)
+        same_data = np.array_equal(fb.data, fr.data)
+        R.check(same_data, 'blind-replay-data-differs', nbad=int((fb.data != fr.data).sum()) if fb.data.shape == fr.data.shape else -1)
+        got_b = tuple(float(x) for x in fb.get_noise_stats())
+        got_o = tuple(float(x) for x in fr.get_noise_stats())
+        R.check(got_b == got_o or not same_data, 'estimates-depend-on-whether-they-were-read-in-between', blind=got_b, observed=got_o,
+                history=''.join('Z' if o['op'] == 'zero' else ('S' if o['op'] == 'signal' else 'N') for o in c['ops']))
     R.mark_nontrivial(tested)
 
 
